@@ -98,7 +98,7 @@ func (fx *FnCtx) eval(st *State, e ast.Expr) Val {
 		if a, ok := v.Ty.Underlying().(*types.Array); ok {
 			// array -> slice over a copy of the array value (value semantics)
 			ss := fx.sc.sliceSort(fx.sc.SortOf(a.Elem()))
-			v = Val{fmt.Sprintf("(mk_%s %s 0 %d %d)", ss, v.T, a.Len(), a.Len()), ss, types.NewSlice(a.Elem())}
+			v = Val{fmt.Sprintf("(mk_%s %s 0 %d %d %s)", ss, v.T, a.Len(), a.Len(), fx.allocRef(st, "backing")), ss, types.NewSlice(a.Elem())}
 		}
 		l, h := "0", fx.sliceLen(v)
 		if lo != nil {
@@ -296,6 +296,24 @@ func (fx *FnCtx) evalUnary(st *State, x *ast.UnaryExpr) Val {
 				}
 			}
 		}
+		// &local of non-struct type: a cell holding the current value (writes through the pointer
+		// are not reflected back into the local: the local is havocked instead, which is sound)
+		if id, ok := x.X.(*ast.Ident); ok {
+			if o, ok := fx.pkg.Info.Uses[id].(*types.Var); ok {
+				if _, isLocal := st.vars[o]; isLocal {
+					v := fx.eval(st, id)
+					r := fx.allocRef(st, "addr_"+id.Name)
+					hn, hs := derefHeap(v.S), "(Array Int "+v.S+")"
+					fx.setHeap(st, hn, hs, "(store "+fx.heapArr(st.heap, hn, hs)+" "+r+" "+v.T+")")
+					nv := Val{fx.sc.Fresh(id.Name, v.S), v.S, v.Ty}
+					if strings.HasPrefix(v.S, "Slice_") {
+						st.assume(fx.sliceWF(nv))
+					}
+					fx.setVar(st, o, nv)
+					return Val{r, "Int", fx.typeOf(x)}
+				}
+			}
+		}
 		fx.fail("unsupported address-of at %s", fx.pos(x))
 	}
 	fx.fail("unsupported unary op %s at %s", x.Op, fx.pos(x))
@@ -481,7 +499,7 @@ func (fx *FnCtx) evalCompositeLit(st *State, cl *ast.CompositeLit) Val {
 			cur = fmt.Sprintf("(store %s %d %s)", cur, i, v.T)
 		}
 		n := len(cl.Elts)
-		return Val{fmt.Sprintf("(mk_%s %s 0 %d %d)", ss, cur, n, n), ss, t}
+		return Val{fmt.Sprintf("(mk_%s %s 0 %d %d %s)", ss, cur, n, n, fx.allocRef(st, "backing")), ss, t}
 	case *types.Map:
 		m := fx.makeMap(st, u, t)
 		dom, val, ks, vs := fx.sc.mapSorts(u)
@@ -573,8 +591,8 @@ func (fx *FnCtx) assign(st *State, lhs ast.Expr, v Val) {
 			es := fx.sc.SortOf(u.Elem())
 			v = fx.coerce(v, es, u.Elem())
 			fx.safety(st, "index", "(and (<= 0 "+idx.T+") (< "+idx.T+" (len_"+base.S+" "+base.T+")))", lhs)
-			nv := fmt.Sprintf("(mk_%s (store (arr_%s %s) (+ (off_%s %s) %s) %s) (off_%s %s) (len_%s %s) (cap_%s %s))",
-				base.S, base.S, base.T, base.S, base.T, idx.T, v.T, base.S, base.T, base.S, base.T, base.S, base.T)
+			nv := fmt.Sprintf("(mk_%s (store (arr_%s %s) (+ (off_%s %s) %s) %s) (off_%s %s) (len_%s %s) (cap_%s %s) (bid_%s %s))",
+				base.S, base.S, base.T, base.S, base.T, idx.T, v.T, base.S, base.T, base.S, base.T, base.S, base.T, base.S, base.T)
 			// name the result and relate its elements to the old value at the elem level
 			c := fx.sc.Fresh("updated", base.S)
 			st.facts = append(st.facts, "(= "+c+" "+nv+")")
